@@ -14,11 +14,11 @@ FUNCS = ["multidecoder.multidecoder.Multidecoder.scan_node", "multidecoder.node.
 
 QUICK_PATTERNS = ["PP", "PV", "PDp", "DpP", "DdDp", "VDd", "DwP", "CP", "EPD", "PWD", "PPP", "PVDd", "PDdP", "PCP"]
 N3_HEAVY = ["PPDp", "PDpP", "DpPP", "PDdDp", "DdPDp", "DpDpDp", "PXP", "PPV", "VPDd", "PDpDd", "CPP", "PPC", "PDdC"]
-N4 = ["PPPP", "PPDdP", "PDdPP", "PPPDd", "PDdDdP", "PVDdP"]
+N4 = ["PPPP", "PPDdP", "PDdPP", "PPPDd"]
 
 
 def make(module_globals, prefix, oracle, patterns_quick, patterns_thorough, depth=3, quick_timeout=300,
-         thorough_timeout=1800, types=True, bound_extra="", interesting=None):
+         thorough_timeout=1500, types=True, bound_extra="", interesting=None):
     """oracle(cfg, root, out, root_value, depth, rebuild) -> '' or failure text"""
     obs = []
     seen = set()
